@@ -15,22 +15,35 @@ by the RFC grammar (the independent recogniser `Spec.parseQuery` accepts it) and
 denotes the same query, the only difference being that an omitted slice step is
 written out as `1` (`normStep`), which selects the same nodes (`C07`); printing is
 idempotent on that normal form.  Names and string literals are in canonical
-single-quoted form for every string (`C08_canonical`).  The filter-expression
-fragment (precedence and parentheses) and the number clause (`repr(float)`) are
-decided by the oracle search (reparse with both the real parser and
-`Spec.Grammar`, AST equality, fixpoint), not yet by a theorem.
+single-quoted form for every string (`C08_canonical`).  `C12_filter_partial` is the
+same round trip for filter expressions (precedence and parentheses) with
+filter-free embedded queries and string/boolean/null literals.  Not covered by a
+theorem: number literals (`repr(float)`/`float()` are CPython runtime), filters
+nested inside filters, and reparsing with the implementation's own Pratt parser —
+all decided by the oracle search (reparse with both the real parser and
+`Spec.Grammar`, AST equality, fixpoint).
 -/
 import JPV.Impl.Serialize
 import JPV.Spec.Grammar
 import JPV.Spec.Typing
 import JPV.Props.C08
 import JPV.Proofs.Printer
+import JPV.Proofs.PrinterFilter
 namespace JPV.Props
 open JPV
 
 theorem C12_partial (q : Query) (hff : Spec.filterFree q = true) (hne : Proofs.nonEmptySegs q = true) :
     ∃ c, Spec.parseQuery (Impl.strQuery q) = .valid c ∧ Spec.abstractSegs c = Proofs.normStep q :=
   Proofs.print_parse_structural q hff hne
+
+/-- The filter fragment: for every filter expression the parser can build in test position (any nesting
+of `!`, `&&`, `||`, comparisons, function calls with literal / query / logical / negated arguments,
+embedded filter-free queries; string, boolean and null literals) the precedence-aware text str() prints is
+derived by the RFC grammar and denotes exactly the same expression: parentheses are kept wherever
+dropping them would change the grouping, and nowhere else does the grouping change. -/
+theorem C12_filter_partial (e : Expr) (h : Proofs.printableTest e = true) :
+    ∃ c, Spec.parseQuery (Impl.strQuery [.child [.filter e]]) = .valid c ∧
+      Spec.abstractSegs c = [.child [.filter e]] := Proofs.print_parse_filter e h
 
 /-- serialising the reparsed query gives the identical text -/
 theorem C12_fixpoint (q : Query) : Impl.strQuery (Proofs.normStep q) = Impl.strQuery q :=
